@@ -204,7 +204,9 @@ impl Callbacks for Dump {
             }
             let adt = tcx.adt_def(did);
             let mut variants = Vec::new();
-            for v in adt.variants().iter() {
+            // discriminant value of each variant (enums only): `E::V as usize` is in range of a table only because of these
+            let discrs: Vec<u128> = if adt.is_enum() { adt.discriminants(tcx).map(|(_, d)| d.val).collect() } else { Vec::new() };
+            for (vi, v) in adt.variants().iter().enumerate() {
                 let mut fields = Vec::new();
                 for f in v.fields.iter() {
                     let fty = with_no_trimmed_paths!(tcx.type_of(f.did).instantiate_identity().skip_norm_wip().to_string());
@@ -217,6 +219,7 @@ impl Callbacks for Dump {
                 variants.push(V::Obj(vec![
                     ("name", V::s(v.name.as_str())),
                     ("key", V::s(def_key(tcx, v.def_id))),
+                    ("discr", discrs.get(vi).map(|d| V::s(&d.to_string())).unwrap_or(V::Null)),
                     ("fields", V::Arr(fields)),
                 ]));
             }
